@@ -16,6 +16,7 @@ import (
 	"os"
 	"path/filepath"
 	"runtime"
+	"strings"
 	"sync"
 	"sync/atomic"
 	"time"
@@ -244,6 +245,12 @@ func (l *lab) finish(in *instance, conclusive bool) {
 		}
 		l.mu.Unlock()
 		l.add("coordinator_panics", 1)
+		head := in.coordPanic
+		if i := strings.Index(head, "\n"); i > 0 {
+			head = head[:i]
+		}
+		l.add("coordinator_panic_kind/"+head, 1)
+		l.add("coordinator_panics_init_"+in.p.InitKind, 1)
 	}
 	if !conclusive {
 		return
@@ -365,6 +372,7 @@ func runC18(c *vc.Ctx) error {
 	c.Ev.Assume("the replication factor of a namespace is fixed during a sequence (ChangeNamespaceMetaParam is not exercised)")
 	c.Ev.Assume("fake data nodes follow the metadata: a membership change commits only while a majority of the current members run; no byzantine answers")
 	c.Ev.Assume("a node that answers the probes but has lost its register key (event delist) exists at most one at a time; a node is 'unreachable' for the monitor when it is absent from the node list the harness presents")
+	c.Ev.Assume("a panic inside the real coordinator code (counted in coordinator_panics) ends that sequence like a pd crash would; it is reported as evidence, it is not a verdict about C18")
 	c.Ev.Assume("wait intervals (waitMigrateInterval, waitRemoveRemovingNodeInterval) are set to zero: every wait counts as elapsed, the order of calls decides")
 	c.Ev.Assume("sync sequences are deterministic up to the coordinator's own map iteration order and clock reads; live sequences (goroutines, real time) are only approximately replayable")
 
